@@ -326,7 +326,10 @@ class C16(RecheckProp):
                   "bytearray) and HashChecker/Padder against the reference verdict stream for every (recorded size, "
                   "on-disk state) combination of a scaled world, and validates recorded iter_hashes() streams and "
                   "reported percentages of the real Checker on payloads with 0..3 boundary-placed damages: exact "
-                  "stream equality, sizes summing to the payload, percentage within 1 ppm of the reference share.")
+                  "stream equality, sizes summing to the payload, percentage within 1 ppm of the reference share. CheckerProto.tla "
+                  "models what one Checker object may be put through (walks opened / advanced / given up, results(), content "
+                  "changing in between): the figure is always the exact share; two wrong variants must fail; TLC-simulated "
+                  "behaviours are replayed into one real Checker each (C16.proto). Liveness of both iterator models is checked.")
     rule = ("cases = (version, metafile source own/reference-encoder variants, P, shape, sizes from A(P), 0..3 "
             "damages from {flip at piece boundaries, truncate to boundary lengths, remove}); distinct by all of these")
 
